@@ -6,7 +6,7 @@ def run(ctx):
     rep = ctx.report
     rep.rule = ("exhaustive single steps: 4 states x session events 0..7 x timer armed at clock reading {100000, 0, 1, 4294960, 4294967, 4294968, 2^40} s x elapsed {0,t-1,t,t+1,10t} and idle periods of 60 s, 1 h, 32767..32769 s, 65535..65537 s, 1 day, 1 week, 2^31-1, 2^31, 2^32-1..2^32+1, 2^32+40000 and 2^40 s; "
                 "non-trivial = steps that change state as the statement's table says; plus every two-step history over the same grid "
-                "(4 x 8 x 5 x 8 x 5) and a check that every call restarts the inactivity timer")
+                "(4 x 8 x 5 x 8 x 5), each with the two inputs at five pairs of sub-second phases (7/7, 900/50, 50/900, 999/0, 0/999 ms into their second), and a check that every call restarts the inactivity timer")
     sweeps.run_sweep(ctx, "c15", [], "C15")
     # all two-step histories over the same grid: the second step's timeout must run from the first *input*
     sweeps.run_sweep(ctx, "c15h", [], "C15")
@@ -17,4 +17,5 @@ def run(ctx):
     sweeps.run_sweep(ctx, "c15", [], "C15", flavour="msan", sanitizer_is_violation=True)
     sweeps.run_sweep(ctx, "c15h", [], "C15", flavour="msan", sanitizer_is_violation=True)
     rep.exhaustive = True
+    rep.need("phased_history_cases", rep.counters.get("sweep_c15h_phased_cases", 0), 20000)
     rep.need("steps", rep.counters.get("sweep_c15_cases", 0), 4500)
